@@ -87,16 +87,33 @@ WITNESS(should_enable);
 	w_req[8] == (t)->meta->require->value[8] && w_req[9] == (t)->meta->require->value[9] && \
 	w_req[10] == (t)->meta->require->value[10] && w_req[11] == (t)->meta->require->value[11])))
 
+/* Verdict oracle, for the group of the CALLER (model_version_probe).  There the call is
+ * replaced by this contract with the witness flag OFF: the clause "ret == se_expected"
+ * is then not evaluated (no string is scanned again) and the result is the arbitrary
+ * but fixed verdict g_se_v[i] of the stream g_se_t[i] -- every combination of verdicts
+ * is explored, so the caller is proved for whatever should_enable answers; that the
+ * answer IS se_expected(have, t) is what THIS group proves (flag ON: slot 0 is bound to
+ * the stream at hand and to se_expected, so "ret == SE_ORACLE(t)" says the same thing). */
+const struct thread *g_se_t[3];    /* the streams of the system, in list order (NULL: absent) */
+int g_se_v[3];                     /* should_enable's verdict for each of them */
+int g_se_have0, g_se_have1;        /* the model version the verdicts refer to */
+#define SE_ORACLE(t) ((t) == g_se_t[0] ? g_se_v[0] : (t) == g_se_t[1] ? g_se_v[1] : g_se_v[2])
+
 int c_should_enable(int have[3], struct model_spec *spec, struct thread *t)
 __CPROVER_requires(__CPROVER_is_fresh(have, 3 * sizeof(int)))
 __CPROVER_requires(__CPROVER_is_fresh(spec, sizeof(*spec)))
 __CPROVER_requires(__CPROVER_is_fresh(t, sizeof(*t)))
-__CPROVER_requires(META_SHAPE(t, spec))
+/* proof of should_enable (flag ON): the stream's metadata view, witnesses, oracle slot 0 */
+__CPROVER_requires(WBIND(should_enable, META_SHAPE(t, spec) && SE_BIND(have, t) &&
+	g_se_t[0] == t && g_se_v[0] == se_expected(have[0], have[1], t)))
+/* use in a caller (flag OFF): the call is one the oracle speaks about */
+__CPROVER_requires(g_w_should_enable || (have[0] == g_se_have0 && have[1] == g_se_have1 &&
+	t != NULL && (t == g_se_t[0] || t == g_se_t[1] || t == g_se_t[2])))
 __CPROVER_requires(DIAG_PRE_MID)
-__CPROVER_requires(WBIND(should_enable, SE_BIND(have, t)))
 __CPROVER_assigns(__CPROVER_errno, DIAG_FRAME, MODEL_FRAME)
 /* everything read lies outside the frame: the post-state evaluation is the pre-state one */
-__CPROVER_ensures(__CPROVER_return_value == se_expected(have[0], have[1], t))
+__CPROVER_ensures(!g_w_should_enable || __CPROVER_return_value == se_expected(have[0], have[1], t))
+__CPROVER_ensures(__CPROVER_return_value == SE_ORACLE(t))
 /* a refusal comes with a diagnostic; at most two per call */
 __CPROVER_ensures(__CPROVER_return_value >= 0 || g_err > __CPROVER_old(g_err))
 __CPROVER_ensures(g_err >= __CPROVER_old(g_err) && g_err - __CPROVER_old(g_err) <= 2u &&
@@ -123,52 +140,64 @@ void h_should_enable(void)
 
 /* =====================================================================================
  * model_version_probe: "A model is enabled in emulation exactly when some stream requires
- * it": 1 iff some stream requires it (all in processable versions), 0 iff none does,
- * -1 iff the model's own version is malformed or some stream's requirement is
- * unreadable / malformed / incompatible.  Bounded: at most 3 streams.
+ * it": 1 iff some stream requires it (all verdicts >= 0), 0 iff none does, -1 iff the
+ * model's own version string is malformed or should_enable refuses some stream (its
+ * requirement is unreadable / malformed / incompatible).  should_enable is replaced by
+ * its contract in oracle mode (see above): verdict i is what it answers for stream i,
+ * called with the model's parsed version.  Bounded: at most 3 streams.
  * ===================================================================================== */
 #define T1(emu) ((emu)->system.threads)
-#define THREADS_SHAPE(emu, spec) ( \
-	T1(emu) == NULL || (__CPROVER_is_fresh(T1(emu), sizeof(struct thread)) && META_SHAPE(T1(emu), spec) && ( \
-	T1(emu)->gnext == NULL || (__CPROVER_is_fresh(T1(emu)->gnext, sizeof(struct thread)) && META_SHAPE(T1(emu)->gnext, spec) && ( \
+#define THREADS_SHAPE(emu) ( \
+	T1(emu) == NULL || (__CPROVER_is_fresh(T1(emu), sizeof(struct thread)) && ( \
+	T1(emu)->gnext == NULL || (__CPROVER_is_fresh(T1(emu)->gnext, sizeof(struct thread)) && ( \
 	T1(emu)->gnext->gnext == NULL || (__CPROVER_is_fresh(T1(emu)->gnext->gnext, sizeof(struct thread)) && \
-	META_SHAPE(T1(emu)->gnext->gnext, spec) && T1(emu)->gnext->gnext->gnext == NULL))))))
+	T1(emu)->gnext->gnext->gnext == NULL))))))
+#define T2(emu) (T1(emu) == NULL ? NULL : T1(emu)->gnext)
+#define T3(emu) (T2(emu) == NULL ? NULL : T2(emu)->gnext)
+#define VERDICT_OK(v) ((v) == -1 || (v) == 0 || (v) == 1)
 
-static int mvp_expected(const struct model_spec *spec, const struct emu *emu)
+/* the model's own version, one evaluation of the scanner: 0 if malformed, else 1 and
+ * the major/minor numbers in *major, *minor */
+static int mvp_version_wf(const struct model_spec *spec)
 {
 	if (spec->version == NULL)
-		return -1;
+		return 0;
 	struct vp_str v = vp_load(spec->version);
-	if (!spec_wellformed(v.c))
+	return spec_wellformed(v.c);
+}
+static int mvp_version_num(const struct model_spec *spec, int k)
+{
+	struct vp_str v = vp_load(spec->version);
+	return spec_value(v.c, k);
+}
+static int mvp_expected(int version_wf, int n, int v1, int v2, int v3)
+{
+	if (!version_wf)
 		return -1;
-	struct vp_shape sh = vp_shape_strict(v.c);
-	int have_major = (int) (vp_dec_mag(v.c, sh.a[0], sh.b[0]) & 0x7fffffffUL);
-	int have_minor = (int) (vp_dec_mag(v.c, sh.a[1], sh.b[1]) & 0x7fffffffUL);
-	const struct thread *t1 = emu->system.threads;
-	const struct thread *t2 = t1 ? t1->gnext : NULL;
-	const struct thread *t3 = t2 ? t2->gnext : NULL;
-	int r1 = t1 ? se_expected(have_major, have_minor, t1) : 0;
-	int r2 = t2 ? se_expected(have_major, have_minor, t2) : 0;
-	int r3 = t3 ? se_expected(have_major, have_minor, t3) : 0;
+	int r1 = n >= 1 ? v1 : 0, r2 = n >= 2 ? v2 : 0, r3 = n >= 3 ? v3 : 0;
 	if (r1 < 0 || r2 < 0 || r3 < 0)
 		return -1;
 	return (r1 > 0 || r2 > 0 || r3 > 0) ? 1 : 0;
 }
 
-int w_nthreads, w_r1, w_r2, w_r3, w_version_wf;
+int w_nthreads, w_version_wf;
 WITNESS(model_version_probe);
 
 int c_model_version_probe(struct model_spec *spec, struct emu *emu)
 __CPROVER_requires(__CPROVER_is_fresh(spec, sizeof(*spec)))
 __CPROVER_requires(__CPROVER_is_fresh(emu, sizeof(*emu)))
 __CPROVER_requires(spec->version == NULL || (__CPROVER_is_fresh(spec->version, VP_N) && vp_pre(spec->version)))
-__CPROVER_requires(THREADS_SHAPE(emu, spec))
+__CPROVER_requires(THREADS_SHAPE(emu))
 __CPROVER_requires(DIAG_PRE)
-__CPROVER_requires(WBIND(model_version_probe,
-	w_nthreads == (T1(emu) == NULL ? 0 : T1(emu)->gnext == NULL ? 1 : T1(emu)->gnext->gnext == NULL ? 2 : 3) &&
-	w_version_wf == (spec->version != NULL && spec_wellformed(spec->version))))
+/* pre-state facts: number of streams, the model version; oracle: the streams and an
+ * arbitrary verdict for each */
+__CPROVER_requires(w_nthreads == (T1(emu) == NULL ? 0 : T2(emu) == NULL ? 1 : T3(emu) == NULL ? 2 : 3))
+__CPROVER_requires(w_version_wf == mvp_version_wf(spec))
+__CPROVER_requires(!w_version_wf || (g_se_have0 == mvp_version_num(spec, 0) && g_se_have1 == mvp_version_num(spec, 1)))
+__CPROVER_requires(g_se_t[0] == T1(emu) && g_se_t[1] == T2(emu) && g_se_t[2] == T3(emu))
+__CPROVER_requires(VERDICT_OK(g_se_v[0]) && VERDICT_OK(g_se_v[1]) && VERDICT_OK(g_se_v[2]))
 __CPROVER_assigns(__CPROVER_errno, DIAG_FRAME, MODEL_FRAME, g_died)
-__CPROVER_ensures(__CPROVER_return_value == mvp_expected(spec, emu))
+__CPROVER_ensures(__CPROVER_return_value == mvp_expected(w_version_wf, w_nthreads, g_se_v[0], g_se_v[1], g_se_v[2]))
 __CPROVER_ensures(__CPROVER_return_value >= 0 || g_err > __CPROVER_old(g_err))
 ;
 
@@ -176,16 +205,16 @@ void h_model_version_probe(void)
 {
 	struct model_spec *spec;
 	struct emu *emu;
-	WITNESS_ON(model_version_probe);
-	WITNESS_OFF(should_enable);
+	WITNESS_OFF(should_enable);                /* oracle mode */
 	WITNESS_OFF(version_parse);
 	WITNESS_OFF(version_is_compatible);
 	int r = model_version_probe(spec, emu);
 	if (r == 1) REACH("model enabled: some stream requires it");
-	if (r == 1 && w_nthreads == 3) REACH("model enabled with three streams");
+	if (r == 1 && w_nthreads == 3 && g_se_v[0] == 0 && g_se_v[1] == 0) REACH("model enabled by the third stream only");
+	if (r == 1 && w_nthreads == 3 && g_se_v[0] == 1 && g_se_v[2] == 0) REACH("model enabled by the first stream only");
 	if (r == 0 && w_nthreads == 0) REACH("model disabled: no streams");
 	if (r == 0 && w_nthreads == 3) REACH("model disabled: three streams, none requires it");
 	if (r == -1 && !w_version_wf) REACH("malformed model version");
-	if (r == -1 && w_version_wf && w_nthreads == 2) REACH("a stream's requirement cannot be processed");
+	if (r == -1 && w_version_wf && w_nthreads == 3 && g_se_v[0] == 1 && g_se_v[1] == 1) REACH("refused by the third stream although two require it compatibly");
+	if (r == -1 && w_version_wf && w_nthreads == 2 && g_se_v[0] == -1) REACH("refused by the first of two streams");
 }
-
